@@ -92,7 +92,8 @@ def vclass(v):
 def one_run(check, base_seed, idx, tier, keep_trace=False):
     seed = run_seed(base_seed, check.PROP, idx)
     rng = random.Random(seed)
-    case = check.gen(rng, tier)
+    gi = getattr(check, "gen_indexed", None)
+    case = gi(idx, rng, tier) if gi is not None else check.gen(rng, tier)
     chooser = Chooser(rng=random.Random(seed ^ 0x9E3779B97F4A7C15))
     res = check.execute(case, chooser)
     res["idx"] = idx
@@ -465,7 +466,7 @@ def main_check(check, tier=None):
     extra_cov = None
     if hasattr(check, "extra"):
         # deterministic / exhaustive side computations of a check (run in-process)
-        extra_cov, extra_viol = check.extra(tier, seed)
+        extra_cov, extra_viol = check.extra(tier, seed, agg)
         agg["violations"].extend(extra_viol)
     known, _fixed = load_known()
     exit_code = 0
